@@ -20,4 +20,5 @@ def check(A):
         R.admission_rules(A, fl, 'C15', parts=('sinks',))
     R.isolation_rules(A, 'C15')
     R.asgi_rules(A, 'C15')
+    R.asgi_body_rule(A, 'C15')
     R.driver_response_rules(A, 'C15')
